@@ -1546,3 +1546,13 @@ mod tests {
         }
     }
 }
+
+/// Verification-only entry points (feature `trustfall_verif`).
+#[cfg(feature = "trustfall_verif")]
+pub mod verif_hooks {
+    use crate::ir::FieldValue;
+
+    pub fn usize_from_field_value(v: &FieldValue) -> Option<usize> {
+        super::usize_from_field_value(v)
+    }
+}
